@@ -144,10 +144,9 @@ class StmtMixin(CallMixin):
         i = z3.Int(fresh_name('i'))
         kk = z3.Const(fresh_name('k'), d.ty.args[0].sort())
         self.assume(n2 == n - 1)
-        self.assume(has2 == z3.Store(has, kt, False))
         self.assume(z3.ForAll([kk], z3.Implies(kk != kt, z3.Select(val2, kk) == z3.Select(val, kk)), patterns=[z3.Select(val2, kk)]))
         self.assume(z3.ForAll([i], z3.Select(keys2, i) == z3.If(i < p, z3.Select(keys, i), z3.Select(keys, i + 1)), patterns=[z3.Select(keys2, i)]))
-        self.assume(z3.ForAll([kk], z3.Select(idx2, kk) == z3.If(z3.Select(idx, kk) > p, z3.Select(idx, kk) - 1, z3.Select(idx, kk)), patterns=[z3.Select(idx2, kk)]))
+        self.assume(z3.ForAll([kk], z3.Select(idx2, kk) == z3.If(kk == kt, z3.IntVal(-1), z3.If(z3.Select(idx, kk) > p, z3.Select(idx, kk) - 1, z3.Select(idx, kk))), patterns=[z3.Select(idx2, kk)]))
         out.loc = d.loc
         return out
 
